@@ -43,6 +43,23 @@ PLAN = {
                            "dense W x + b is a bounded Kani harness (2->2); a network's prediction = composition of its layers is proved at the level of abstract layer functions (units network._forward and network.forward: fold over the layers, with skip / loop handling)",
                            "the glue inside Convolution/Deconvolution/Maxpool::forward around the verified kernels (activation call, flatten flag) is by program order"],
     ),
+    "C04": dict(
+        title="Training is ordered mini-batch gradient-sum descent",
+        level="proof",
+        verus=["C04_learn_epoch.rs"],
+        kani=True,
+        undecided_clauses=[
+            "the forward pass, objective, backward pass and parameter update are abstract functions of the network state in the epoch unit (what they "
+            "compute is C02 / C06 / C01 / C03); that Network::update applies exactly one optimizer step per parameter tensor is read (dispatch over layer kinds), "
+            "the element step itself is C03's",
+            "rayon's `batch.into_par_iter().map(..).collect()` is replaced by a sequential in-order loop (R25): that the parallel map keeps input order is "
+            "assumed (C05's subject, not applicable); the consuming `for (wg, wb, loss) in results` is rewritten to `remove(0)` steps (R29)",
+            "the group list: `par_chunks(batch)` = consecutive groups of B in order, last one shorter - checked with std's `chunks` on N <= 4, B <= 5 by a bounded "
+            "Kani harness on the verbatim statement, assumed beyond that bound and for rayon's implementation",
+            "the epoch loop around the verified region (`for epoch in 1..epochs + 1`: the region runs once per epoch with step number = epoch, until early "
+            "stopping) is read here and executed by C13's bounded slice",
+            "std's float `sum` and `usize as f32` are opaque (R27 / R28): 'mean' is proved as (std sum of the per-sample losses in order) / (group size)"],
+    ),
     "C08": dict(
         title="Announced layer shapes equal produced shapes; transitions lose nothing",
         level="proof",
@@ -284,6 +301,19 @@ MANIFEST_TEXT = {
         note="Tensor is opaque (clone preserves contents: assumed); the accumulation arithmetic and optimizer calls of update() are outside "
              "the verified regions; creation-time equality and parameters() are read, not verified.",
     ),
+    "C04": dict(
+        category="proof",
+        technique="Verus contract on the per-epoch region of Network::learn (batch loop, gradient accumulation, update, reported loss) over abstract network-state functions; bounded Kani harness on the batch-splitting statement",
+        design_ref="DESIGN.md §5 C04",
+        text="Proof for all networks, data sets, group lists and epochs: the region of Network::learn that makes up one epoch (mechanically extracted; "
+             "rewrites R1/R13/R15/R19/R25-R29) leaves the network in the state after_groups(k = #groups): groups walked in order, and for each group exactly "
+             "ONE update(step number = epoch) applied to the layer-wise sums, in sample order, of the per-sample weight and bias gradients, every one of "
+             "them evaluated (forward, objective, backward) at the weights held before that step; the value pushed to the training-loss history is the mean "
+             "over the groups of (in-order sum of the per-sample losses / group size). Hence every sample of every group contributes exactly once. "
+             "Bounded (Kani, N <= 4, all B <= 5): the statement that builds the group list yields the ordered partition into consecutive groups of B, "
+             "last group shorter, inputs and targets alike.",
+        note="abstract forward / objective / backward / update; rayon order-preservation and chunking beyond the bound assumed; epoch loop read (C13 slice).",
+    ),
     "C11": dict(
         category="proof",
         technique="Verus contracts on the skip-table region of Feedback::create and on the WHOLE Feedback::forward over an abstract tensor algebra",
@@ -390,7 +420,5 @@ MANIFEST_TEXT = {
 }
 
 NOT_APPLICABLE = {
-    "C04": "the accumulation loop of Network::learn, which carries the property's central clause, can be executed by neither verifier "
-           "(iterator/rayon adapters are outside Verus' subset; CBMC cannot symbolically execute code that moves and drops Tensors held in Vecs)",
     "C05": "quantifies over thread schedules of rayon's pool; Kani has no thread support and Verus has no specification of rayon",
 }
